@@ -67,6 +67,7 @@ class Doc:
         self.scripts_run = []          # (id, replace)
         self.script_attrs = []         # attributes of each executed script, same order
         self.pending = ""              # unparsed tail (incomplete token at a chunk boundary)
+        self.lenient = False           # scripts other than the replacement scripts are ignored
 
     # ---- tree construction
     def _cur(self):
@@ -179,6 +180,8 @@ class Doc:
     def _run_script(self, el):
         src = "".join(c.data for c in el.children if c.kind == "text")
         m = SCRIPT_RE.match(src)
+        if self.lenient and not src.startswith("(function() { let id = "):
+            return
         if not m or m.group(2) not in (REPLACE_TAIL, KEEP_TAIL):
             raise ScriptError("unknown script: %r" % src[:80])
         sid, replace = m.group(1), m.group(2) == REPLACE_TAIL
